@@ -6,7 +6,8 @@ from polys import *
 RULE = ("seeded random validated models as for C01 (no compound pre-fixed); model row set / columns / solver-safe flag "
         "compared with the real to_ge_polyhedron(active=True); every in-box integer point of the real matrix is enumerated "
         "when the box has <= 20000 (quick) points: completeness for all models, soundness for solver-safe ones; "
-        "non-trivial = has a compound child; distinct = distinct models")
+        "a second stream over boolean leaves rich in nested Not / Imply / XNor; expressions of the safe grammar (Lean: Ast.SafeExpr) "
+        "must be sound even if the built object were not in solver-safe form; non-trivial = has a compound child; distinct = distinct models")
 ASSUMPTIONS = ["validated, reference-free models with no compound pre-fixed", "auxiliary columns free within their bounds"]
 
 
@@ -18,14 +19,22 @@ def do_case(ctx, inp):
         ctx.skip("prefixed-compound")
         return
     safe = solver_safe(t)
-    ctx.case(inp, nontrivial=depth(t) > 1, tags=tags_of(t) | {"solver-safe" if safe else "unsafe"})
+    grammar = ast_safe(a)
+    ctx.case(inp, nontrivial=depth(t) > 1, tags=tags_of(t) | {"solver-safe" if safe else "unsafe"} | ({"safe-grammar"} if grammar else set()))
+    # "negation pushes inwards to re-establish this form": an expression of the safe grammar (theorem C02.expr_safe)
+    # must come out solver-safe; if it does not, the enumeration below looks for the spurious point
+    expect_sound = safe or grammar
     lv = leaves_of(t)
     poly = copy.deepcopy(o).to_ge_polyhedron(active=True)
     rows, avars = poly_snap(poly)
     ctx.op({"op": "encode", "t": t, "active": True},
            {"rows": rows_json(rows), "vars": avars, "safe": safe}, norm=norm_encode)
+    if grammar and not safe:
+        ctx.notes.append("an expression of the safe grammar built a model that is not solver-safe: " + canon_short(a))
     pts = box_points(avars, 20000 if ctx.quick else 300000)
     if pts is None:
+        if grammar and not safe:
+            ctx.fail("safe-grammar-expression-not-in-solver-safe-form", {"model": t})
         ctx.skip("box-too-large-for-enumeration")
         return
     ctx.tags["enumerated"] += 1
@@ -38,8 +47,9 @@ def do_case(ctx, inp):
             if key in feas_leaf:
                 continue
             feas_leaf.add(key)
-            if safe and ref_eval(t, sigma) != 1:
-                ctx.fail("spurious-point-in-solver-safe-model", {"x": x, "sigma": sigma})
+            if expect_sound and ref_eval(t, sigma) != 1:
+                ctx.fail("spurious-point-in-solver-safe-model" if safe else "spurious-point-in-model-built-from-safe-grammar",
+                         {"x": x, "sigma": sigma, "model": t})
                 return
     for sigma in all_assignments(lv):
         if ref_eval(t, sigma) == 1:
@@ -52,8 +62,68 @@ def do_case(ctx, inp):
                 return
 
 
+def canon_short(a):
+    import json
+    return json.dumps(a, sort_keys=True)[:400]
+
+
+def gen_negnest(rng, depth, names):
+    """a random expression of the safe grammar dominated by nested negations: Not / Imply / XNor over compounds"""
+    S = lambda: {"c": "str", "id": rng.choice(names)}
+    if depth <= 0 or rng.random() < 0.15:
+        return S()
+    def sub():
+        return gen_negnest(rng, depth - 1, names)
+    def distinct(args):
+        out, seen = [], set()
+        for x in args:
+            k = canon_short(x)
+            if k not in seen:
+                seen.add(k); out.append(x)
+        return out
+    r = rng.random()
+    if r < 0.3:
+        x = sub()
+        return {"c": "Not", "arg": x}
+    if r < 0.5:
+        return {"c": "Imply", "cond": sub(), "cons": sub() if rng.random() < 0.5 else S()}
+    if r < 0.75:
+        return {"c": "XNor", "args": distinct([sub() for _ in range(rng.randint(2, 3))])}
+    if r < 0.9:
+        return {"c": rng.choice(["All", "Any"]), "args": distinct([sub() for _ in range(rng.randint(1, 3))])}
+    k = rng.choice(["AtMost", "Xor", "AtLeast"])
+    args = distinct([S() for _ in range(rng.randint(1, 3))])
+    a = {"c": k, "args": args}
+    if k == "AtMost": a["v"] = rng.randint(0, 2)
+    if k == "AtLeast": a["v"] = rng.randint(1, len(args))
+    return a
+
+
+SAFE_CLASSES = ["All", "Any", "AtLeast", "XNor", "Imply", "Not", "XNor", "Not", "Imply", "AtMost", "Xor"]
+
+
 def run(ctx):
-    n_models = (80 if ctx.quick else 1200) * (3 if ctx.search else 1)
+    n_models = (150 if ctx.quick else 1200) * (3 if ctx.search else 1)
     for _ in range(n_models):
         a, o, t = gen_valid(ctx.rng, ctx.quick, wide_p=0.0)
+        do_case(ctx, {"ast": a})
+    # a stream rich in nested negations over boolean leaves (Not / Imply / XNor of compounds, several levels)
+    for _ in range(n_models):
+        a, o, t = gen_valid(ctx.rng, ctx.quick, wide_p=0.0, int_p=0.0, bool_only=True, classes=SAFE_CLASSES, max_arity=3)
+        do_case(ctx, {"ast": a})
+    made = 0
+    for _ in range(n_models * 6):
+        if made >= n_models:
+            break
+        a = gen_negnest(ctx.rng, ctx.rng.randint(2, 4), list("abcde")[:ctx.rng.randint(2, 5)])
+        if a["c"] == "str":
+            continue
+        try:
+            o = build(a)
+        except Exception:
+            continue
+        if is_var(o) or not well_formed(snap(o)) or o.errors():
+            continue
+        made += 1
+        ctx.tags["negation-nest-stream"] += 1
         do_case(ctx, {"ast": a})
